@@ -32,6 +32,10 @@ func TestLattice(t *testing.T) {
 		switch elem + ">" + param {
 		case "impl1>I1", "NLT1>LT1", "LT1>NLT1":
 			return true
+		case "T1>I1", "PT1>I1", "N1>I1", "N2>I1":
+			// (the support file gives every T, hence *T, and every N the
+			// methods Tag1..Tag3: they implement I1)
+			return true
 		}
 		return param == "any"
 	}
